@@ -1,4 +1,5 @@
 import Proofs.Props.C05
+import Proofs.Props.C01
 /-!
 # C06 — Post-processing is history independent and never corrupts the solved object
 
@@ -231,6 +232,22 @@ theorem structure_factor_steps {p q : Prism ℝ} {nz : Bool} {s : MA ℝ} (w : P
   obtain ⟨hF, omF, h1, h2, rfl, _⟩ := C05.structure_factor_def w hsite h
   exact ReflTransGen.tail (ReflTransGen.single (Step.toF p .h hF h1)) (Step.toF (set p .h hF) .om omF h2)
 
+open Relation in
+/-- `solvation_potential`: three moves to Fourier space, then the two of `structure_factor` -/
+theorem solvation_steps {p q : Prism ℝ} {hnc : Bool} {out : MA ℝ} (w : PWf p) (hsite : p.siteD.length = 1)
+    (h : p.solvation hnc = .ok (q, out)) : ReflTransGen Step p q := by
+  obtain ⟨_, cF, hF, omF, S, cs, csc, psi, h1, h2, h3, h4, _⟩ := C05.solvation_def h
+  have s1 : Step p (set p .c cF) := Step.toF p .c cF h1
+  have s2 : Step (set p .c cF) (set (set p .c cF) .h hF) := Step.toF _ .h hF h2
+  have s3 : Step (set (set p .c cF) .h hF) (set (set (set p .c cF) .h hF) .om omF) := Step.toF _ .om omF h3
+  have e : (set (set (set p .c cF) .h hF) .om omF) = ({ p with directCorr := cF, totalCorr := hF, omega := omF } : Prism ℝ) := rfl
+  have w' : PWf ({ p with directCorr := cF, totalCorr := hF, omega := omF } : Prism ℝ) := by
+    obtain ⟨a, b, _, _⟩ := C05.ensureFourier_meta h3
+    exact ⟨by simpa using a.trans w.om_len, by simpa using b.trans w.om_rank, w.pair_len, w.pair_rank⟩
+  have s4 := structure_factor_steps w' (by simpa using hsite) h4
+  rw [← e] at s4
+  exact (ReflTransGen.tail (ReflTransGen.tail (ReflTransGen.single s1) s2) s3).trans s4
+
 /-- a user-initiated transform of a stored array to the other space is a step as well -/
 theorem flip_is_step (p : Prism ℝ) (w : Which) (B : MA ℝ)
     (h : (if (get p w).space = .real then p.dom.maToFourier (get p w) else p.dom.maToReal (get p w)) = .ok B)
@@ -259,5 +276,45 @@ theorem reads_history_free {d : Dom ℝ} (hd : C07.DInv d) {n : ℕ} {A A' B B' 
     have e' := ensureReal_of_canon hd g' h'
     rw [hc] at e
     exact Eqv.trans e e'.symm
+
+/-! ## re-solving from the own solution -/
+
+/-- `cost` reads only the static part of the object: two objects that agree on it give the same evaluation -/
+theorem cost_eq_of_static {inv : ℕ → Array ℝ → Array ℝ} {p p' : Prism ℝ} (h : C01.SameStatic p p') (x : Array ℝ) :
+    p'.cost inv x = p.cost inv x := by
+  obtain ⟨h1, h2, h3, h4, h5, h6, h7, h8, h9, h10, h11, h12, h13⟩ := h
+  cases p; cases p'
+  simp only at h1 h2 h3 h4 h5 h6 h7 h8 h9 h10 h11 h12 h13
+  subst h1 h2 h3 h4 h5 h6 h7 h8 h9 h10 h11 h12 h13
+  rfl
+
+theorem totalToReal_static {q q' : Prism ℝ} (h : q.totalToReal = .ok q') : C01.SameStatic q q' := by
+  unfold Prism.totalToReal at h
+  split at h
+  · simp only [bind, Except.bind, pure, Except.pure] at h
+    split at h
+    · cases h
+    · cases h; exact ⟨rfl, rfl, rfl, rfl, rfl, rfl, rfl, rfl, rfl, rfl, rfl, rfl, rfl⟩
+  · simp only [pure, Except.pure] at h; cases h; exact ⟨rfl, rfl, rfl, rfl, rfl, rfl, rfl, rfl, rfl, rfl, rfl, rfl, rfl⟩
+
+/-- **re-solving from the own solution**: if the object was solved with returned point `x*`, then any later `solve`
+whose last evaluation is again at `x*` (a root finder started on its own root) leaves **exactly** the same object — whatever
+calculate calls and transforms happened in between is irrelevant, because `cost` overwrites every dynamic array -/
+theorem resolve_returns_same_state {inv : ℕ → Array ℝ → Array ℝ} {p q : Prism ℝ} {xstar : Array ℝ}
+    (h : p.afterSolve inv xstar = .ok q) : q.afterSolve inv xstar = .ok q := by
+  unfold Prism.afterSolve at h ⊢
+  simp only [bind, Except.bind] at h ⊢
+  split at h
+  · cases h
+  · rename_i c hc
+    have hs : C01.SameStatic p q := by
+      have a := C01.cost_static hc
+      have b := totalToReal_static h
+      obtain ⟨a1, a2, a3, a4, a5, a6, a7, a8, a9, a10, a11, a12, a13⟩ := a
+      obtain ⟨b1, b2, b3, b4, b5, b6, b7, b8, b9, b10, b11, b12, b13⟩ := b
+      exact ⟨b1.trans a1, b2.trans a2, b3.trans a3, b4.trans a4, b5.trans a5, b6.trans a6, b7.trans a7, b8.trans a8,
+        b9.trans a9, b10.trans a10, b11.trans a11, b12.trans a12, b13.trans a13⟩
+    rw [cost_eq_of_static hs, hc]
+    exact h
 
 end C06
